@@ -21,11 +21,11 @@ _spec.loader.exec_module(c10)
 LEVELS = ["none", "format", "data", "all"]
 PBITS = {"none": 0, "format": 1, "data": 2, "all": 3}
 ERR = {"OK": 0, "ACCMODE": -13, "PROTECTED": -22, "BADINDEX": -19}
-META = {0: {"format"}, 1: {"sub/format1"}, 2: {"pre/format2"}, 3: {"pre/deep/format3"}}
+META = {0: {"format"}, 1: {"sub/format1"}, 2: {"pre/format2"}, 3: {"pre/deep/format3"}, 4: {"pre/deep/deeper/format4"}}
 
 
 def frag_of_path(p):
-    return 1 if p.startswith("sub/") else 3 if p.startswith("pre/deep/") else 2 if p.startswith("pre/") else 0
+    return 1 if p.startswith("sub/") else 4 if p.startswith("pre/deep/deeper/") else 3 if p.startswith("pre/deep/") else 2 if p.startswith("pre/") else 0
 
 
 # (harness op line, public name, model call or None)
@@ -102,7 +102,8 @@ def op_table():
                           ("alter_raw raw 0x1 4 0", "gd_alter_raw", 0), ("alter_raw sraw 0x1 4 0", "gd_alter_raw", 1),
                           ("alter_entry phase 6 9 0", "gd_alter_entry", 0), ("hide const", "gd_hide", 0), ("hide sconst", "gd_hide", 1),
                           ("unhide const", "gd_unhide", 0), ("delete const 0", "gd_delete", 0), ("delete sconst 0", "gd_delete", 1),
-                          ("rename const newn 0", "gd_rename", 0), ("rename sconst newn 0", "gd_rename", 1), ("reference r16", "gd_reference", 0)):
+                          ("rename const newn 0", "gd_rename", 0), ("rename sconst newn 0", "gd_rename", 1), ("reference r16", "gd_reference", 0),
+                          ("reference sraw", "gd_reference", 0), ("reference P_praw", "gd_reference", 0), ("reference ac", "gd_reference", 0)):
         add(line, name, "medit %d" % g)
     for line, name, g in (("alter_raw rc 0x88 1 1", "gd_alter_raw", 0), ("alter_raw sraw 0x22 1 1", "gd_alter_raw", 1),
                           ("alter_spec rc%20RAW%20FLOAT64%201 1", "gd_alter_spec", 0),
@@ -165,7 +166,9 @@ def op_table():
     add("uninclude 1 1", "gd_uninclude", None)
     add("uninclude 2 1", "gd_uninclude", None)      # fragment 2 includes the format-protected fragment 3: both files would go
     add("uninclude 2 0", "gd_uninclude", None)
-    add("uninclude 3 1", "gd_uninclude", None)
+    add("uninclude 3 1", "gd_uninclude", None)      # its direct child (fragment 4) is format-protected
+    add("uninclude 4 1", "gd_uninclude", None)
+    add("uninclude 3 0", "gd_uninclude", None)
     add("delete skc 4", "gd_delete", None)          # GD_DEL_DEREF: bakes the value into the client xsc of fragment 0
     add("delete skc 12", "gd_delete", None)
     add("delete kc 4", "gd_delete", None)
@@ -198,7 +201,7 @@ def parse_fdump(lines):
     return d
 
 
-FRAGNAME = {0: "/format", 1: "/sub/format1", 2: "/pre/format2", 3: "/pre/deep/format3"}
+FRAGNAME = {0: "/format", 1: "/sub/format1", 2: "/pre/format2", 3: "/pre/deep/format3", 4: "/pre/deep/deeper/format4"}
 
 
 def parse_meta(lines):
@@ -338,11 +341,11 @@ def main():
         # metadata of a fragment changed = what a fresh handle sees of it differs, or its format file appeared/disappeared
         # (a rewrite of the file with the same content in another layout is not a change of the metadata)
         if c["mode"] == "RDONLY":
-            ch_meta = sorted(g for g in (0, 1, 2, 3) if any(p in META[g] for p in changed))
+            ch_meta = sorted(g for g in (0, 1, 2, 3, 4) if any(p in META[g] for p in changed))
         else:
-            ch_meta = sorted(g for g in (0, 1, 2, 3) if (FRAGNAME[g] in mb and FRAGNAME[g] in ma and mb[FRAGNAME[g]] != ma[FRAGNAME[g]])
+            ch_meta = sorted(g for g in (0, 1, 2, 3, 4) if (FRAGNAME[g] in mb and FRAGNAME[g] in ma and mb[FRAGNAME[g]] != ma[FRAGNAME[g]])
                              or any((p in before) != (p in after) for p in META[g]))
-        ch_data = sorted(set(frag_of_path(p) for p in changed if p not in META[0] | META[1] | META[2] | META[3] and p != "sub/badfrag" and not p.endswith("/") and p != "sub/newfmt"))
+        ch_data = sorted(set(frag_of_path(p) for p in changed if p not in META[0] | META[1] | META[2] | META[3] | META[4] and p != "sub/badfrag" and not p.endswith("/") and p != "sub/newfmt"))
         kind = cls.get(c["name"], "U")
         nontrivial.add((c["name"], c["mode"], c["p0"], c["p1"], err, tuple(changed)))
         rp = {"op": c["line"], "mode": c["mode"], "protect": [c["p0"], c["p1"]], "error": err, "changed_files": changed,
@@ -358,9 +361,9 @@ def main():
                 V_("C11/rdonly-not-refused/%s" % c["name"], "%s returns %d instead of GD_E_ACCMODE through a read-only handle" % (what, err), c, rp)
         else:
             # fragment 2 (pre/format2) has no /PROTECT directive of its own: it inherits fragment 0's level
-            # fragment 3 (pre/deep/format3) says /PROTECT format itself
+            # fragment 3 (pre/deep/format3) says /PROTECT none itself, fragment 4 below it /PROTECT format
             ep0, ep1 = c.get("eff", (c["p0"], c["p1"]))
-            for g, p in ((0, ep0), (1, ep1), (2, ep0), (3, "format")):
+            for g, p in ((0, ep0), (1, ep1), (2, ep0), (3, "none"), (4, "format")):
                 if p in ("format", "all") and g in ch_meta and c["name"] != "gd_alter_protection":
                     bad = True
                     V_("C11/format-protected-changed/%s%s" % (c["name"], "/reference-fixup" if "eff" in c else ""), "%s changed the metadata of format-protected fragment %d (%s), error %d" % (
